@@ -507,6 +507,9 @@ func (m *minimizer) freshRun(sc *Scenario, dec []simrt.Decision) ([]simrt.Decisi
 
 func (m *minimizer) reproduces(sc *Scenario, dec []simrt.Decision) ([]simrt.Decision, bool) {
 	m.tries++
+	if heapBig() {
+		runtime.GC() // the collector is off during runs
+	}
 	if dec != nil {
 		if tr, _, ok := m.freshRun(sc, dec); ok {
 			return tr, true
